@@ -75,6 +75,25 @@ func (g *gen) grammatical() string {
 	return sign + m + e
 }
 
+// confusable returns a byte or rune that is NOT in the grammar but is "close" to a character that is:
+// one bit away from it (so any masking / case-folding trick maps it onto the grammar), with the high bit
+// set, or a Unicode digit / sign / letter look-alike.
+func (g *gen) confusable() string {
+	const gram = "0123456789+-.eEnNaAsSiIfFtTyY"
+	t := gram[g.r.Intn(len(gram))]
+	switch g.r.Intn(6) {
+	case 0, 1, 2:
+		b := t ^ (1 << uint(g.r.Intn(8)))
+		return string([]byte{b})
+	case 3:
+		return string([]byte{byte(g.r.Intn(256))})
+	case 4:
+		return []string{"\uff10", "\uff15", "\u0660", "\u0665", "\u06f1", "\u2212", "\uff0b", "\uff0e", "\uff25", "\u0131", "\u017f", "\u212a", "\u00a0", "\u2003", "\t", "\n", "\r", "\v", "\f"}[g.r.Intn(19)]
+	default:
+		return string([]byte{t, 0})
+	}
+}
+
 func (g *gen) mutate(s string) string {
 	r := []rune(s)
 	pos := 0
@@ -82,6 +101,9 @@ func (g *gen) mutate(s string) string {
 		pos = g.r.Intn(len(r) + 1)
 	}
 	a := alphabet[g.r.Intn(len(alphabet))]
+	if g.r.Intn(3) == 0 {
+		a = g.confusable()
+	}
 	switch g.r.Intn(3) {
 	case 0: // insert
 		return string(r[:pos]) + a + string(r[pos:])
@@ -189,9 +211,9 @@ type fakeState struct {
 }
 
 func (f *fakeState) Write(b []byte) (int, error) { return f.sb.Write(b) }
-func (f *fakeState) Width() (int, bool)         { return f.width, f.has }
-func (f *fakeState) Precision() (int, bool)     { return 0, false }
-func (f *fakeState) Flag(c int) bool            { return strings.ContainsRune(f.flags, rune(c)) }
+func (f *fakeState) Width() (int, bool)          { return f.width, f.has }
+func (f *fakeState) Precision() (int, bool)      { return 0, false }
+func (f *fakeState) Flag(c int) bool             { return strings.ContainsRune(f.flags, rune(c)) }
 
 func (rn *runner) streamTotal(g *gen) {
 	verbs := []rune{'e', 'E', 'f', 'F', 'g', 'G', 'v', 's', 'd', 'x', 'q'}
